@@ -338,4 +338,6 @@ def check(fx, rep, tier):
         check_run(fx, rep, crate, cfg)
     rep.floor('R18.1', 4, 'start-index / winner-update instances')
     rep.floor('R18.2', 3, 'sweep obligations')
+    import imports as _imp
+    _imp.layer(fx, rep, 'C18')
     return META
